@@ -188,8 +188,10 @@ class Fresh:
                 return FRESH, f"new {f.id}"
             if f.id in ('PlateSlicer', 'Slicer'):
                 return SHELL, f"{f.id}(..) refers to the plate it was made from"
-            if f.id in LOCAL_FUNCS:
+            if f.id in LOCAL_FUNCS or f.id in ('defaultdict', 'OrderedDict', 'Counter', 'deque', 'namedtuple'):
                 return LOCAL, f.id
+            if f.id in self.model.classes:
+                return FRESH, f"new {f.id}"            # any class of the library: its constructor makes a new object
             return ARG, f"result of {f.id}()"
         if isinstance(f, ast.Attribute):
             base = f.value
@@ -197,6 +199,11 @@ class Fresh:
                 return LOCAL, 'numpy/pandas value'
             if isinstance(base, ast.Attribute) and isinstance(base.value, ast.Name) and base.value.id in ('numpy', 'np', 'pandas'):
                 return LOCAL, 'numpy/pandas value'
+            if isinstance(base, ast.Name) and base.id in ('dict', 'list', 'set', 'tuple', 'str', 'frozenset', 'collections'):
+                return LOCAL, f"{base.id}.{f.attr}()"          # dict.fromkeys(..), collections.defaultdict(..)
+            made = self.returns_new_object(f.attr, base)
+            if made:
+                return FRESH, made
             if f.attr in self.cached_methods:
                 return CACHED, f"value returned by the cached method {f.attr}()"
             if f.attr in FRESH_OPS:
@@ -219,10 +226,45 @@ class Fresh:
             return (ARG, f"result of .{f.attr}()") if rc != LOCAL else (LOCAL, rw)
         return ARG, 'result of a call'
 
+    def returns_new_object(self, mname, base):
+        """A factory of the library: every method of that name returns a constructor call of a library class (possibly
+        through a local that was assigned one), e.g. a classmethod `for_solutes(cls, ..): return cls(..)`."""
+        if mname in FRESH_OPS or mname.startswith('__'):
+            return None
+        cands = self.model.methods_named(mname)
+        if not cands:
+            return None
+        for m in cands:
+            rets = [r for r in walk_no_nested(m.node) if isinstance(r, ast.Return)]
+            if not rets:
+                return None
+            for r in rets:
+                v = r.value
+                if isinstance(v, ast.Name):
+                    defs = [a.value for a in walk_no_nested(m.node) if isinstance(a, ast.Assign) and len(a.targets) == 1
+                            and isinstance(a.targets[0], ast.Name) and a.targets[0].id == v.id]
+                    if len(defs) != 1:
+                        return None
+                    v = defs[0]
+                if not (isinstance(v, ast.Call) and isinstance(v.func, ast.Name) and
+                        (v.func.id in self.model.classes or v.func.id == 'cls')):
+                    return None
+        return f"result of the factory {mname}()"
+
     def plate_class(self, slicer_expr, state, ff, depth=0):
         """Class of `<slicer>.plate` at `state` (the object whose wells a view / apply / set writes)."""
         key = pathkey(slicer_expr)
         v = self.field_state(key, 'plate', state)
+        if v is None:
+            # `x = y` (an alias, e.g. the result variable of an expanded helper): the field was set through y
+            r = slicer_expr if isinstance(slicer_expr, Ref) else state.env.get(key) if key else None
+            hops = 0
+            while isinstance(r, Ref) and hops < 10 and v is None:
+                v = self.field_state(r.name, 'plate', state)
+                if v is not None:
+                    key = r.name
+                r = r.value if isinstance(r.value, Ref) else None
+                hops += 1
         if v is not None:
             c, w = self.classify(v, state, ff, depth + 1)
             return c, f"{key}.plate = {show(v, 50)}: {w}"
